@@ -28,6 +28,7 @@
 
 
 #include <xalanc/PlatformSupport/XalanMessageLoader.hpp>
+#include <xalanc/XPath/MutableNodeRefList.hpp>
 
 
 
@@ -413,7 +414,20 @@ VariablesStack::findXObject(
                 const PushAndPopContextMarker   theContextMarkerPushPop(executionContext);
 #endif
 
-                theNewValue = var->getValue(executionContext, doc);
+                {
+                    // A top-level variable is evaluated with the root node as
+                    // the current node and a current node list containing just
+                    // the root node, wherever it is referenced first.
+                    MutableNodeRefList  theContextNodeList(executionContext.getMemoryManager());
+
+                    theContextNodeList.addNode(doc);
+
+                    const XPathExecutionContext::ContextNodeListPushAndPop  theContextNodeListPushAndPop(
+                                executionContext,
+                                theContextNodeList);
+
+                    theNewValue = var->getValue(executionContext, doc);
+                }
                 assert(theNewValue.null() == false);
 
 #if !defined(XALAN_RECURSIVE_STYLESHEET_EXECUTION)
